@@ -11,6 +11,7 @@ COMMON_TRUSTED = [
 
 # (file under coq/Gen, acra-vh arguments that print it): regenerated from /repo on every run
 GENERATORS = [
+    ("TokenConsts.v", ["tokenconsts"]),
     ("MaskConsts.v", ["maskconsts"]),
     ("WireConsts.v", ["wireconsts"]),
     ("Consts.v", ["consts"]),
@@ -22,6 +23,27 @@ def dom(name, run_mod, nq, nt, model=True):
 
 
 PROPS = {
+    "C10": {
+        "domains": [
+            {
+                "name": "c10",
+                "run_vo": "Model/RunTokens.vo",
+                "n_quick": 48,
+                "n_thorough": 500,
+                "model": True
+            }
+        ],
+        "trusted": [
+            "modelled, not verified: token metadata times (created/accessed) and access-time granularity; redis store; Go-level data races (every storage operation is atomic in the model)",
+            "the encrypting storage wrapper is modelled as transparent except for Secure Cell's refusal of empty messages; its round trip is C01/C03's AcraBlock theorem",
+            "protobuf (TokenValue) is modelled for the two fields the tokenizer writes; math/rand.Int31n over the crypto source is re-implemented byte-exactly and validated by every replayed case",
+            "inline literals of the acra code not reachable by the generator: \"client\"/\"zone\" (generateDataID, AggregateTokenContextToBytes), len(\"a@b.cc\")/len(\"a@b.cdef\") (randomEmail)"
+        ],
+        "assumptions": [
+            "consistency/injectivity/reversibility theorems are over histories without token removal (and reversibility without disabling) - the refuted variants show the premises are necessary",
+            "tokens_injective is a reduction: equal values or an explicit SHA-256 collision on distinct inputs"
+        ]
+    },
     "C15": {
         "domains": [
             {
